@@ -27,9 +27,37 @@ def main():
     R = getattr(m, names[infmt] % proto + "Reader")
     W = getattr(m, names[outfmt] % proto + "Writer")
     rc = 0
+    src = infile
+    if mode.startswith("short"):
+        # a stream that hands out at most k bytes per read (a pipe / socket): exercises the reader's buffer compaction
+        import io
+        k = int(mode.split(":")[1])
+
+        class Short(io.BufferedIOBase):
+            def __init__(self, path):
+                self._f = open(path, "rb")
+
+            def readable(self):
+                return True
+
+            def readinto(self, b):
+                data = self._f.read(min(k, len(b)))
+                b[:len(data)] = data
+                return len(data)
+
+            def read(self, n=-1):
+                return self._f.read(min(k, n) if n and n > 0 else k)
+
+            def readline(self, n=-1):
+                return self._f.readline()
+
+            def close(self):
+                self._f.close()
+        src = Short(infile) if infmt == "binary" else infile
+        mode = "copy"
     try:
         with W(outfile) as w:
-            with R(infile) as r:
+            with R(src) as r:
                 if mode == "copy":
                     r.copy_to(w)
                 else:
